@@ -102,7 +102,8 @@ def extrapolate_templates(sid_templates: Mapping[str, str], to_extrapolate: List
                 key = part.split(':')[0].replace('{', '').replace('}', '')
 
                 # building the new type and template
-                new_type = sid_type.replace(keytype, key)
+                # only the trailing keytype is replaced (not an equal substring of the basetype, eg. shot__shot)
+                new_type = sid_type[:len(sid_type) - len(keytype)] + key
                 new_template = '/'.join(parts[:len(parts)-i])
 
                 # we skip if template is already defined by another type
